@@ -124,8 +124,10 @@ example : let rs : List TSRange := [⟨⟨0,0⟩,⟨0,2⟩,0,2⟩, ⟨⟨0,3⟩,
 
 /-- `mark_end_on_range`: when the lexer is not at EOF and stands inside range `idx`
 (`start ≤ pos ≤ end`), the token end recorded by `ts_lexer__mark_end` lies on a given range
-(closed interval): on range `idx` itself, or — at its very start — on the end of range `idx-1`. -/
-theorem mark_end_on_range (l : Lexer) (h1 : l.idx < l.count)
+(closed interval): on range `idx` itself, or — at its very start — on the end of range `idx-1`
+(the code as it is, `skipEmpty = false`; with fixes/C13-empty-range-boundary.diff it is the end of the nearest
+previous range that includes text). -/
+theorem mark_end_on_range (l : Lexer) (hv : l.skipEmpty = false) (h1 : l.idx < l.count)
     (h2 : (l.range l.idx).start_byte ≤ l.pos.bytes ∧ l.pos.bytes ≤ (l.range l.idx).end_byte) :
     ∃ j, j < l.count ∧ (l.range j).start_byte ≤ l.markEnd.tokEnd.bytes ∧ l.markEnd.tokEnd.bytes ≤ (l.range j).end_byte ∨
       (l.markEnd.tokEnd.bytes = (l.range j).end_byte ∧ j + 1 = l.idx) := by
@@ -135,7 +137,7 @@ theorem mark_end_on_range (l : Lexer) (h1 : l.idx < l.count)
   by_cases hc : (l.idx > 0 && l.pos.bytes == (l.range l.idx).start_byte) = true
   · refine ⟨l.idx - 1, Or.inr ?_⟩
     simp only [Bool.and_eq_true, decide_eq_true_eq] at hc
-    simp [hc]; omega
+    simp [hc, hv]; omega
   · refine ⟨l.idx, Or.inl ⟨h1, ?_⟩⟩
     simp [hc]; exact h2
 
